@@ -57,6 +57,8 @@ var Curated = []string{
 	"a <<\"E\nF\"\n", "a <<$x\n$x\n", "a <<`b`\n`b`\n", "\x00", "a\x00b", "\xff\xfe", "é", "a\rb", "a\r\n",
 	"while a; do b; done <<E\nx\nE\n", "if a; then b <<E\nx\nE\nfi\n", "a | b <<E | c\nx\nE\n", "a <<E && b <<F\n1\nE\n2\nF\n",
 	"echo ${x}2>f", "\"$x\"2>f", "''2>f", "$(x)2>&1", "`x`0<&3", "$((1+1))2>>f", ": \\>2>f", "${x}2<<E\nb\nE\n", "a'b'2>f", "a2>f", "2>f", "\\22>f",
+	"cat <<''\nbody\n\n", "cat <<\"\"\n$x\n\n", "<<''\nx\n", "cat <<''\n$x line\n\n", "cat <<E\n$(())\nE\n", "cat <<$(())\nx\n$(())\n", "cat <<E\n$((  ))\n$((\n))\nE\n", "echo $(()) $((  ))\n", "(( ))\n",
+	"for x; ;", "for x in a\n&", "case x ;", "case x\n\n)", "$é", "\"5$€\"", "$日本", "$\xff", "${é}", "é$",
 	"${#}", "${##}", "${#?}", "${#-}", "${#x}", "${#:-a}", "${x%%}", "${x%%%}", "${x:}", "${x:a}", "${}", "${1a}", "$1a", "$10", "${10}",
 }
 
